@@ -227,7 +227,10 @@ def aux(name, eqn, gf=None):
     g = ""
     if gf:
         xs, ys = gf
-        g = "<gf><xscale min=\"%s\" max=\"%s\"/><yscale min=\"0\" max=\"100\"/><ypts>%s</ypts></gf>" % (xs[0], xs[1], ",".join(str(y) for y in ys))
+        if len(xs) > 2:
+            g = "<gf><xpts>%s</xpts><yscale min=\"0\" max=\"100\"/><ypts>%s</ypts></gf>" % (",".join(str(x) for x in xs), ",".join(str(y) for y in ys))
+        else:
+            g = "<gf><xscale min=\"%s\" max=\"%s\"/><yscale min=\"0\" max=\"100\"/><ypts>%s</ypts></gf>" % (xs[0], xs[1], ",".join(str(y) for y in ys))
     return "\t\t\t<aux name=\"%s\"><eqn>%s</eqn>%s</aux>\n" % (xml_escape(name), xml_escape(eqn), g)
 
 
